@@ -148,6 +148,23 @@ func init() {
 		defer d.Close()
 		return observe(d, len(buf))
 	}
+	// debload2 bufA bufB -> BOTH packages are loaded before either is looked at; each exposes its own content
+	ops["debload2"] = func(a []string) string {
+		ba, bb := []byte(arg(a, 0)), []byte(arg(a, 1))
+		da, err := deb.Load(bytes.NewReader(ba), "a.deb")
+		if err != nil {
+			return "err"
+		}
+		defer da.Close()
+		db, err := deb.Load(bytes.NewReader(bb), "b.deb")
+		if err != nil {
+			return "err"
+		}
+		defer db.Close()
+		ra := observe(da, len(ba))
+		rb := observe(db, len(bb))
+		return ra + " ## " + rb
+	}
 	// debloadfile buf -> the same package through LoadFile (a real file under /var/tmp, closed by the returned closer)
 	ops["debloadfile"] = func(a []string) string {
 		buf := []byte(arg(a, 0))
